@@ -308,6 +308,10 @@ class Machine:
                 require(False, "assignment-did-not-raise", f"{type(x).__name__}.brand_new_attribute")
             except (dataclasses.FrozenInstanceError, AttributeError, TypeError):
                 pass
+        elif kind == "digest":
+            # the digest length is a process-wide setting a user may change between two parser runs:
+            # nodes made earlier keep the ids and content ids they were given
+            config.ID_DIGEST_SIZE = [4, 16, 8, 2][o[1] % 4]
         else:
             raise ValueError(kind)
 
@@ -346,6 +350,7 @@ def st_program(ctx: Ctx):
         st.tuples(st.just("props"), s, s, small),
         st.tuples(st.just("rich"), s, s),
         st.tuples(st.just("setattr"), s, s),
+        st.tuples(st.just("digest"), small),
     ]
     op = st.one_of(*ops).map(lambda o: [list(o)])
     # macro: unregister a node (not its children), then round-trip / duplicate / replace that same node
